@@ -78,6 +78,55 @@ CLAIMED = {
         "Trusted: Coq kernel; encode/validateLink models tied by sampled correspondence; producers (each validates separately and backs off to text) by exploration until the inline model is in (partial); linkify producers not exercisable here (linkify-it-py absent).",
         "DESIGN.md §3 C05",
     ),
+    "C01": (
+        "proof",
+        "Coq theorems on the whole-pipeline Gallina model (every unguarded Python read modelled as a raising read, every loop on explicit fuel) + whole-pipeline differential correspondence incl. exception class and termination + totality exploration of the implementation",
+        "The model of parse/render (block parser, inline parser, core chain, renderer; coq/Model) raises exactly where an unguarded read of the Python source would and runs every loop on fuel, so 'total' is the statement 'never Raise, never OutOfFuel'. Proved for ALL inputs so far (partial): numeric character references only reach chr() with a valid code point (C01_entity_chr_safe, C01_entity_codes_nonneg), the renderer never raises on any token list (C01_render_total), skipToken never recurses past maxNesting (C01_skip_token_cap), reads of the line tables inside their range succeed (C01_table_read_in_range). The whole-pipeline totality theorem is NOT proved: per-rule safety is decided each run by comparing model and implementation on exception class and termination over ~500 (quick) (configuration, API, document) cases, and by exploring the implementation: generated documents x configuration lattice x 4 APIs, ALL pairs of 47 line shapes and sampled 3-4 line sequences, truncated seeds, 40 deep-nesting/long-run families, Unicode white space at every trimming/splitting site, CLI on arbitrary bytes, the documented TypeErrors - each under a wall-clock limit.",
+        "Trusted: Coq kernel; hand model tied to the code by sampled correspondence; totality of the whole pipeline is exploration, not a theorem (partial); re/str primitives assumed non-raising on str; linkify-it-py absent.",
+        "DESIGN.md §3 C01",
+    ),
+    "C02": (
+        "proof",
+        "Coq proofs on the stream / inline post-processing / push models (all token lists) + whole-pipeline differential correspondence + executable well-formedness predicate on implementation streams",
+        "Theorems for ALL token lists: fragments_join leaves levels equal to depth and no adjacent text tokens (C02_fragments_join_wf), text_join leaves no text_special placeholder (C02_text_join_no_special), StateBlock.push assigns level = depth (C02_block_push_level), a tree that builds flattens back to the identical stream (C02_tree_roundtrip). That every block and inline rule pushes balanced segments is not yet a theorem: it is carried each run by the whole-pipeline correspondence (model tokens = implementation tokens) and by the well-formedness predicate (nesting balance, level = depth, open/close pairing by type/tag/markup, inline children only on inline tokens, tree constructibility) evaluated on ~2000 (quick) implementation streams under random rule subsets, maxNesting cut-offs and typographer settings.",
+        "Trusted: Coq kernel; models tied by sampled correspondence; producer side (rules push balanced segments) by exploration (partial).",
+        "DESIGN.md §3 C02",
+    ),
+    "C03": (
+        "proof",
+        "Coq proofs on the block model (thematic break rule, line scanner) + whole-pipeline differential correspondence incl. maps + source-map predicate on implementation streams",
+        "Theorems: the thematic break rule maps exactly its own line and advances by one (C03_hr_map); the line scanner is a left fold that splits at any point, so line tables of a concatenation are the concatenated tables (C03_line_scan_splits). The general map law (maps lie inside the document, children nest inside parents, siblings are ordered and disjoint, each block's map covers exactly its lines) is decided each run on the implementation by the map predicate over the syntax tree for ~2000 (quick) generated documents in random configurations, while the correspondence ties every map the model computes to the implementation's.",
+        "Trusted: Coq kernel; block model tied by sampled correspondence; general map law by exploration (partial).",
+        "DESIGN.md §3 C03",
+    ),
+    "C08": (
+        "proof",
+        "Coq proofs on the block model (thematic break markup/count) + whole-pipeline correspondence + verbatim-content oracle on the implementation",
+        "Theorems: an hr token's markup is its marker character repeated exactly as often as it occurs on the line (C08_hr_markup, C08_hr_count; the defect repaired in /repo is the counter-example of the old code). Verbatim preservation in general (code block / fence / html_block content = the source lines minus container prefix and indentation; markup/info of fences and headings; inline code and text pieces occur in the source) is decided each run on the implementation with an independent oracle incl. the exact fence-indentation rule under quotes-only or lists-only ancestors, over ~2000 (quick) generated documents; the correspondence ties model content/markup/info to the implementation's.",
+        "Trusted: Coq kernel; block model tied by sampled correspondence; general verbatim law by exploration (partial).",
+        "DESIGN.md §3 C08",
+    ),
+    "C09": (
+        "proof",
+        "Coq proofs on the escape rule model with the escapable table regenerated from /repo + whole-pipeline correspondence on templated documents + literal-text oracle on the implementation",
+        "Theorems: every one of the 32 ASCII punctuation characters is in the ESCAPED table regenerated from /repo (C09_every_punct_escapable, finite domain by vm_compute) and the escape rule on backslash + such a character emits exactly that character as a text_special token and advances by two (C09_escape_rule). That the escaped or reference-encoded text then survives every later rule in every context is decided each run on the implementation: for generated t (all punctuation, blanks, non-ASCII, controls) esc(t) and ref(t) must render as exactly escapeHtml(t) in paragraph, heading, emphasis, link text, image alt, link title and table cell under three configurations. Known finding (listed, reported each run): a table cell whose text ends in a backslash.",
+        "Trusted: Coq kernel; inline model tied by sampled correspondence; context half by exploration (partial).",
+        "DESIGN.md §3 C09",
+    ),
+    "C10": (
+        "proof",
+        "Coq proofs of inertness on the rule models (table, strikethrough) + whole-pipeline correspondence under random rule subsets + switch-effect oracles on the implementation",
+        "Theorems for ALL states: the table rule returns False without touching the state on any source that contains no '|' (C10_table_inert); the strikethrough tokenizer and post-processor do nothing on input without '~' (C10_strikethrough_inert, C10_strikethrough_post_inert). Decided on the implementation each run: token kinds vs the producer map of the enabled rules under random rule subsets of every preset; table / strikethrough on vs off on inputs without their trigger (incl. paragraph + delimiter-row-like lines); inline_definitions / store_labels on vs off (tokens modulo definition tokens and label meta, env, HTML modulo line breaks after tags); each option set by constructor, item assignment and (for the nine core options) attribute assignment.",
+        "Trusted: Coq kernel; models tied by sampled correspondence under random rule subsets; whole-chain statements (kinds need producer, option routes) by exploration (partial).",
+        "DESIGN.md §3 C10",
+    ),
+    "C16": (
+        "proof",
+        "Coq proof of the reference rule's env discipline on the block model + whole-pipeline correspondence with seeded env + history / label / form oracles on the implementation",
+        "Theorem for ALL states: the reference rule only ever adds to env - an existing label is never overwritten, a later definition goes to duplicate_refs, and terminator probes and the paragraph scan leave env alone (C16_reference_env). The document-level statements are decided each run on the implementation: env histories (fresh / seeded once / seeded twice) vs one parse of (R + blank)* + D compared on HTML, tokens with shifted maps, all records (references + duplicate_refs) with maps in combined coordinates and winners; label variants (case folding incl. sharp s, sigma, digraphs, Kelvin sign, dotted i; blank runs incl. one line break) resolve; reference form = inline form for (text, destination, title) triples incl. escapes, entities, backslash-newline, links and images. The correspondence runs the model with the same seeded env and compares the resulting env.",
+        "Trusted: Coq kernel; model tied by sampled correspondence; normalizeReference's case mapping is an opaque recorded table in the model; document-level equivalence by exploration (partial).",
+        "DESIGN.md §3 C16",
+    ),
 }
 
 NOT_YET = {}
